@@ -349,6 +349,23 @@ theorem corr2cov_cov2corr (v : List Rat) (hv : ∀ x ∈ v, x ≠ 0) (C : List (
     corr2cov (cov2corrWith v C) v = C :=
   corr2cov_cov2corr' v hv C hrows hcols
 
+/-- Entry `(r, c)` of `flattened_to_symmetric(x)`. -/
+theorem flattened_entry (x : List Rat) (r c : Nat) (hr : r < triangularRoot x.length) (hc : c < triangularRoot x.length) :
+    ((flattenedToSymmetric x).getD r []).getD c 0 =
+      if c ≤ r then x.getD (triPos r c) 0 else x.getD (triPos c r) 0 := by
+  simp [flattenedToSymmetric, List.getD_eq_getElem?_getD, hr, hc]
+
+/-- `flattened_to_symmetric` is symmetric and its lower triangle is `x` in row-major order. -/
+theorem flattened_symmetric (x : List Rat) (r c : Nat) (hr : r < triangularRoot x.length) (hc : c < triangularRoot x.length) :
+    ((flattenedToSymmetric x).getD r []).getD c 0 = ((flattenedToSymmetric x).getD c []).getD r 0 := by
+  rw [flattened_entry x r c hr hc, flattened_entry x c r hc hr]
+  by_cases h1 : c ≤ r <;> by_cases h2 : r ≤ c
+  · have : r = c := by omega
+    subst this; rfl
+  · simp [h1, h2]
+  · simp [h1, h2]
+  · omega
+
 /-! ## Non-vacuity: the hypotheses are satisfiable on non-trivial inputs -/
 
 def exampleRvs : RVs Entry :=
@@ -369,5 +386,21 @@ example : (join exampleRvs ["a", "c", "d"] (.value (.sym "F"))).toOption.map
     (fun r => ((getCov r.rvs "a" "c").toOption, (getCov r.rvs "c" "d").toOption, (getCov r.rvs "a" "b").toOption))
     = some (some (.sym "F"), some (.sym "F"), some (.num 0)) := by decide
 example : validate (fun m => m) (fun _ => true) exampleRvs = true := by decide
+example : SymBlocks exampleRvs := by
+  intro d hd i j
+  simp [exampleRvs] at hd
+  rcases hd with rfl | rfl | rfl
+  · match i, j with
+    | 0, 0 | 0, 1 | 0, 2 | 1, 0 | 1, 1 | 1, 2 | 2, 0 | 2, 1 | 2, 2 => rfl
+    | i + 3, j => simp [ent]; match j with | 0 | 1 | 2 => simp | j + 3 => simp
+    | 0, j + 3 | 1, j + 3 | 2, j + 3 => simp [ent]
+  · exact ent_single_sym _ i j
+  · match i, j with
+    | 0, 0 | 0, 1 | 1, 0 | 1, 1 => rfl
+    | i + 2, j => simp [ent]; match j with | 0 | 1 => simp | j + 2 => simp
+    | 0, j + 2 | 1, j + 2 => simp [ent]
+example : (join exampleRvs ["a", "c"] (.template fun i j => some (.sym s!"N{i}{j}"))).toOption.map
+    (fun r => ((getCov r.rvs "a" "c").toOption, (getCov r.rvs "c" "a").toOption, (getCov r.rvs "a" "a").toOption))
+    = some (some (.sym "N01"), some (.sym "N01"), some (.sym "A")) := by decide
 
 end Pharmpy.C11
